@@ -191,6 +191,25 @@ func check(c mcase, fail func(key, msg string)) {
 		} else {
 			compare("Collection.List[0]", list[0])
 		}
+		// a read that selects items (include) AND fields (read mask): the predicate speaks about the stored item, the
+		// mask about what is shown of it - an item chosen for a field the mask leaves out is returned all the same
+		hasString := func(id string, item proto.Message) bool {
+			t, _ := item.(*lib.T)
+			return id == "a" && t != nil && (t.DefaultString != "" || t.DefaultInt32 != 0 || t.DefaultNestedMessage != nil)
+		}
+		wantIn := hasString("a", orig)
+		var sel []proto.Message
+		if p := guarded(func() { sel = col.List(resource.WithReadMask(mask), resource.WithInclude(hasString)) }); p != nil {
+			report("panic", fmt.Sprintf("Collection.List(include, mask) panicked: %v", p))
+			return
+		}
+		if wantIn && len(sel) != 1 {
+			report("list-include-and-mask", fmt.Sprintf("List with an include predicate the stored item a satisfies and this read mask returned %d items", len(sel)))
+		} else if wantIn {
+			compare("Collection.List(include)[0]", sel[0])
+		} else if len(sel) != 0 {
+			report("list-include-and-mask", fmt.Sprintf("List returned %d items, the predicate selects none", len(sel)))
+		}
 		unchanged("Collection.Get/List")
 		if m, _ := col.Get("a"); !same(m, orig) {
 			report("mutated-store", "Collection reads with a read mask changed the stored item")
